@@ -8,6 +8,11 @@ HOOK_COMMITS = subprocess.run(
 
 # property -> (level, technique, level text, level note, design ref)
 CLAIMED = {
+ "C11": ("exploration",
+         "generated hostile statements submitted through every query interface of the real services (QueryNode::query, axum router /api/v1/sql GET+POST, Prometheus endpoints with hostile matchers, FlightSqlQueryService execute / flight info / prepare / do_get, query_stream); before/after monitor over object listing (path, size, ETag), catalog, scratch directory, session tables/settings and a fixed probe query",
+         "Held on every (statement, interface) explored: COPY ... TO (existing chunk path, new path, catalog object, local file, file:// URL), CREATE TABLE AS, CREATE [OR REPLACE] VIEW (incl. redefining metrics), CREATE EXTERNAL TABLE, DROP TABLE, INSERT, SET, EXPLAIN ANALYZE COPY, EXPLAIN of DDL, multi-statement strings, smuggled through PromQL matchers; nothing in storage, catalog, session or probe answer may change and writing / redefining statements must come back as an error.",
+         "In-memory object store registered as memory://verif; local effects are only looked for under the scratch directory given in the statements.",
+         "DESIGN.md section 3 C11"),
  "C18": ("exploration",
          "differential monitor: QueryFilter (input level) and the real ingester -> query_stream / query_stream_filtered pipeline (frozen merge instant via the interposed clock) vs DataFusion evaluating the same WHERE on the same flushed batch, row identity by unique ids; TopicBroadcastChannel / FilteredReceiver vs reference topic semantics",
          "Held on every case explored: WHERE clauses of the supported family (=, <>, <, <=, >, >= in either operand order, AND, OR, parentheses to depth 2; string / int / float / signed literals, int literal on float column and vice versa) x random batches (Int64 and Timestamp(ns) time column, nullable value and label columns, rows just before / at / after the merge instant); end to end: delivered rows per flushed batch, in flush order, once, on both receiver kinds; 40k random topic-filter trees (All / Shard / Tenant / Metrics / nested And / Or incl. empty lists) x batch metadata through the real channel.",
